@@ -191,37 +191,56 @@ def run(ctx):
         return decide_equal(r, apply_fn('sqrt', Rat.sym('LIM')))
     ob('R15.4').run(fc, 'segment_curvature singular branch: sqrt(lim (x\'y\'\'-y\'x\'\')^2 / (x\'^2+y\'^2)^3)', th_c0, judge_c0, opts=noerr)
 
+    # Path-level wrappers.  The (segment, t) look-up itself is C05's subject; here the path gets a consistent symbolic length table
+    # (fractions l0, l1, 1-l0-l1) so that whatever look-up helper the wrappers use runs for real, and the SEGMENT methods are hooked.
+    from . import c05
+    Tp = Rat.sym('T')
+    wrap_opts = {'presign': [(Tp, '+'), (Tp - 1, '-'), (1 - Rat.sym('l0') - Rat.sym('l1'), '+')]}
+    LS = [Rat.sym('l0'), Rat.sym('l1'), 1 - Rat.sym('l0') - Rat.sym('l1')]
+    seg_len = lambda k: LS[k] * Rat.sym('Ltot')
+    t_of = lambda k: (Tp - sum(LS[:k], Rat.const(0))) / LS[k]
     fpc = mdl.func('path.Path.curvature')
 
     def th_pc(it):
-        p = it.construct('path.Path', it.construct('path.Line', Rat.csym('a0'), Rat.csym('a1')), it.construct('path.Line', Rat.csym('a1'), Rat.csym('a2')))
-        it.call_hooks['path.Path.T2t'] = lambda it2, a, k: (1, Rat.sym('tloc'))
-        it.call_hooks['path.Path.derivative'] = lambda it2, a, k: (D1 if k.get('n', a[2] if len(a) > 2 else 1) == 1 else D2)
+        p, segs = c05.mk_path(it)
+        idx = lambda s_: [i for i, x in enumerate(segs) if x is s_][0]
+        it.call_hooks['path.Line.derivative'] = lambda it2, a, k: Rat.csym('D%d_%d' % (k.get('n', a[2] if len(a) > 2 else 1), idx(a[0])))
         it.call_hooks['path.Line.joins_smoothly_with'] = lambda it2, a, k: True
-        return it.call_method(p, 'curvature', Rat.sym('T'))
-    ob('R15.4').run(fpc, 'Path.curvature formula', th_pc, lambda v: decide_equal(v, kappa) if not isinstance(v, Opaque) else (True, ''),
-                    opts={'presign': [('close', Rat.sym('tloc'), '+'), ('close', Rat.sym('tloc') - 1, '+'), (Rat.csym('a0'), '-+'), (Rat.csym('a2'), '-+')]})
+        return it.call_method(p, 'curvature', Tp)
+
+    def judge_pc(v):
+        if isinstance(v, Opaque):
+            return True, ''
+        v = to_rat(v)
+        last = ''
+        for k in range(3):
+            dz, ddz = Rat.csym('D1_%d' % k) / seg_len(k), Rat.csym('D2_%d' % k) / seg_len(k) ** 2
+            kx = apply_fn('abs', dz.real() * ddz.imag() - dz.imag() * ddz.real()) / apply_fn('sqrt', dz.real() ** 2 + dz.imag() ** 2) ** 3
+            ok, last = decide_equal(v, kx)
+            if ok is True:
+                return True, ''
+        return False, 'not |x\'y\'\' - y\'x\'\'|/(x\'^2+y\'^2)^1.5 of the located segment\'s derivatives scaled by its length: ' + last
+    ob('R15.4').run(fpc, 'Path.curvature formula', th_pc, judge_pc, opts=wrap_opts)
 
     fpd = mdl.func('path.Path.derivative')
     for n in (1, 2):
         def th_pd(it, n=n):
-            p = it.construct('path.Path', it.construct('path.Line', Rat.csym('a0'), Rat.csym('a1')), it.construct('path.Line', Rat.csym('a1'), Rat.csym('a2')))
-            it.call_hooks['path.Path.T2t'] = lambda it2, a, k: (1, Rat.sym('tloc'))
+            p, segs = c05.mk_path(it)
             seen = []
-            it.call_hooks['path.Line.derivative'] = lambda it2, a, k: seen.append((a[1:], dict(k))) or Rat.csym('DN')
-            it.call_hooks['path.Line.length'] = lambda it2, a, k: Rat.sym('LEN')
-            return it.call_method(p, 'derivative', Rat.sym('T'), n), seen
+            idx = lambda s_: [i for i, x in enumerate(segs) if x is s_][0]
+            it.call_hooks['path.Line.derivative'] = lambda it2, a, k: seen.append((idx(a[0]), a[1:], dict(k))) or Rat.csym('DN%d' % idx(a[0]))
+            return it.call_method(p, 'derivative', Tp, n), seen
 
         def judge_pd(v, n=n):
             r, seen = v
-            if not seen:
-                return False, 'segment derivative not used'
-            a, k = seen[0]
+            if len(seen) != 1:
+                return False, 'segment derivative used %d times' % len(seen)
+            k_, a, k = seen[0]
             nn = k.get('n', a[1] if len(a) > 1 else 1)
-            if nn != n or not to_rat(a[0]).equals(Rat.sym('tloc')):
-                return False, 'segment derivative called with (t=%r, n=%r)' % (a[0], nn)
-            return decide_equal(r, Rat.csym('DN') / Rat.sym('LEN') ** n)
-        ob('R15.4').run(fpd, 'Path.derivative(T, n=%d) == seg.derivative(t, n)/seg.length()**n' % n, th_pd, judge_pd)
+            if nn != n:
+                return False, 'segment derivative called with n=%r' % (nn,)
+            return decide_all_equal([('local parameter', a[0], t_of(k_)), ('value', r, Rat.csym('DN%d' % k_) / seg_len(k_) ** n)])
+        ob('R15.4').run(fpd, 'Path.derivative(T, n=%d) == seg.derivative(t, n)/seg.length()**n' % n, th_pd, judge_pd, opts=wrap_opts)
     flc = mdl.func('path.Line.curvature')
     ob('R15.4').run(flc, 'Line.curvature == 0', lambda it: it.call_method(it.construct('path.Line', *P), 'curvature', TT),
                     lambda v: decide_equal(v, 0))
